@@ -428,12 +428,14 @@ pub struct IsoMon {
     /// workers alive per client address (a client whose workers have all ended owns no transfer any more)
     live_workers: BTreeMap<SocketAddr, i64>,
     had_worker: BTreeSet<SocketAddr>,
+    /// endpoints that abandoned an upload before their listed transfer: late ACKs for it are theirs
+    pub abandoned_upload_from: Vec<SocketAddr>,
     pub probes: BTreeMap<&'static str, u64>,
 }
 
 impl IsoMon {
     pub fn new(clients: Vec<ClientSpec>, intruders: Vec<(usize, SocketAddr)>, listen: SocketAddr, single_port: bool) -> IsoMon {
-        IsoMon { attr: Attr::default(), clients, intruders, listen, single_port, live_src: BTreeMap::new(), owed_errors: BTreeMap::new(), got_errors: BTreeMap::new(), active_peer: BTreeMap::new(), live_workers: BTreeMap::new(), had_worker: BTreeSet::new(), probes: BTreeMap::new() }
+        IsoMon { attr: Attr::default(), clients, intruders, listen, single_port, live_src: BTreeMap::new(), owed_errors: BTreeMap::new(), got_errors: BTreeMap::new(), active_peer: BTreeMap::new(), live_workers: BTreeMap::new(), had_worker: BTreeSet::new(), abandoned_upload_from: vec![], probes: BTreeMap::new() }
     }
     fn v(&self, rule: &str, detail: String) -> Violation {
         Violation::new("C12", &format!("C12.{rule}"), detail).sig("mode", if self.single_port { "single-port" } else { "multi-port" })
@@ -482,7 +484,7 @@ impl Monitor for IsoMon {
                                 return Some(self.v("foreign_datagram_to_client", format!("DATA sent to {dst}, which is uploading")));
                             }
                         }
-                        Some(Pkt::Ack(_)) if !c.upload => {
+                        Some(Pkt::Ack(_)) if !c.upload && !self.abandoned_upload_from.contains(dst) => {
                             return Some(self.v("foreign_datagram_to_client", format!("ACK sent to {dst}, which is downloading")));
                         }
                         _ => {}
